@@ -157,7 +157,7 @@ var rec = ev.New("TestPropSignSteps", "step lists built as structs: mixtures of 
 func TestPropSignSteps(t *testing.T) {
 	pool := keys.Pool()
 	ctx := context.Background()
-	ev.Check(t, 1500, 12000, func(t *rapid.T) {
+	ev.Check(t, 1500, 60000, func(t *rapid.T) {
 		g := sgen.New(t, sgen.Opts{BigMaps: true})
 		st := &lstats{unknownDepth: -1}
 		penv := g.EnvMap("penv", 4)
